@@ -16,6 +16,72 @@ QUICK_PREFIXES = ['petl.transform', 'petl.util']
 THOROUGH_PREFIXES = ['petl.transform', 'petl.util', 'petl.comparison']
 
 
+SIZE_CHANGING = ('del[]', '.remove', '.pop', '.insert', '.append', '.extend', '.clear',
+                 '.popleft', '.appendleft', '.add', '.discard', '.update')
+
+
+def _r205(rep, fn, fa, events, pm):
+    """Two data-state next() calls evaluated by ONE statement inside a
+    StopIteration handler: when the second raises, the item taken by the first
+    is lost (the statement's assignment never happens)."""
+    by_stmt = {}
+    for ev in events:
+        if ev.kind == 'next' and not ev.info.get('has_default') and iter_state(ev.info['iter']) == 'D':
+            by_stmt.setdefault(id(ev.stmt), []).append(ev)
+    for evs in by_stmt.values():
+        if len(evs) < 2:
+            continue
+        srcs = set(norm(e.node) for e in evs)
+        if len(srcs) < 2:
+            continue
+        if in_try_catching(pm, evs[0].node, 'StopIteration', fn.node):
+            rep.violated('R20.5', fn, norm(evs[0].stmt),
+                         'one statement takes items from %d iterators (%s) under an except StopIteration: if a later '
+                         'next() raises because that table has no (more) rows, the item already taken by an earlier '
+                         'one is dropped and its variables keep their old values' % (len(evs), ', '.join(sorted(srcs))),
+                         evs[0].stmt)
+
+
+def _iterated_names(fornode):
+    """Names whose container is being iterated by this for statement (looking
+    through enumerate/zip/reversed/iter, not through copies)."""
+    out = set()
+
+    def visit(e):
+        if isinstance(e, ast.Name):
+            out.add(e.id)
+        elif isinstance(e, ast.Call) and isinstance(e.func, ast.Name) and \
+                e.func.id in ('enumerate', 'zip', 'reversed', 'iter', 'izip'):
+            for a in e.args:
+                visit(a)
+    visit(fornode.iter)
+    return out
+
+
+def _r206(rep, fn, fa, events, pm):
+    """A list is not resized inside a loop that iterates over it."""
+    from ..absint import enclosing
+    for ev in events:
+        if ev.kind != 'mutate' or ev.info['how'] not in SIZE_CHANGING:
+            continue
+        rn = ev.info.get('recv_node')
+        if not isinstance(rn, ast.Name):
+            continue
+        if not any(a[0] == 'FRESH' and a[1] in ('list', 'deque', 'dict', 'set') for a in ev.info['recv']):
+            continue
+        for p, c in enclosing(pm, ev.node, stop=fn.node):
+            if isinstance(p, (ast.For, ast.AsyncFor)) and any(c is b for b in p.body):
+                if rn.id in _iterated_names(p):
+                    # leaving the loop right after the change is the safe idiom
+                    rep.violated('R20.6', fn, norm(ev.node),
+                                 '`%s` is resized (%s) inside the loop `%s` that iterates over it: the element that '
+                                 'slides into the freed slot is skipped (typically when one input has no rows)'
+                                 % (rn.id, ev.info['how'], norm(p)), ev.node)
+                    break
+            if isinstance(p, (ast.FunctionDef, ast.Lambda)):
+                break
+
+
 def run(ctx):
     rep = ctx.report
     rep.explanation = (
@@ -34,6 +100,9 @@ def run(ctx):
                       'unless the other operand is Comparable')
     rep.rule('R20.4', 'key-domain sentinel: a Comparable(None) start value of a merge loop is never ordered against '
                       'a real key (a None key equals it); it must be told apart by identity first')
+    rep.rule('R20.5', 'a statement inside an except-StopIteration region takes an item from at most one possibly '
+                      'exhausted iterator (otherwise the item already taken is lost when a later next() raises)')
+    rep.rule('R20.6', 'a list is not resized inside a loop that iterates over it (exhausted-input bookkeeping)')
     rep.rule('R20.3', 'zero-trip division: a divisor that may still be the literal 0 it was initialised with '
                       '(incremented only inside a data loop) is guarded')
     rep.assumptions = [
@@ -52,6 +121,8 @@ def run(ctx):
         if real:
             n_fn += 1
         pm = fa.parents()
+        _r205(rep, fn, fa, events, pm)
+        _r206(rep, fn, fa, events, pm)
         for ev in events:
             if ev.kind == 'next':
                 v = ev.info['iter']
